@@ -182,6 +182,9 @@ def _evaluate(case):
                 tf = HomogeneousMatrix((0.0, 0.0, 0.0), (1.0, 0.0, 0.0, 0.0), FrameID.BASE_LINK, FrameID.MAP)
             t = fr["t"]
             gt = FrameGroundTruth(t, str(fr["n"]), [_mk(o, t, case["frame_id"], ego) for o in fr["gts"]], transforms=[tf])
+            from harness import builders as _B  # registry with a history (replaced ego pose), see builders.give_history
+
+            _B.maybe_history(gt, tf, ("c19", t, len(fr["gts"]), ego[0]))
             ests = [_mk(o, t, case["frame_id"], ego) for o in fr["ests"]]
             if case["crit"]["kind"] == "xy":
                 crit = CriticalObjectFilterConfig(cfg, L, max_x_position_list=[case["crit"]["x"]] * len(L), max_y_position_list=[case["crit"]["y"]] * len(L))
